@@ -46,6 +46,7 @@ type ContentSpec struct {
 	Ignore  string                 `json:"ignore,omitempty"` // .terraformignore content
 	Links   map[string]string      `json:"links,omitempty"`  // path -> target
 	Fifos   []string               `json:"fifos,omitempty"`
+	Modes   map[string]uint32      `json:"modes,omitempty"` // path -> permission bits
 }
 type PkgSpec struct {
 	Addr     string     `json:"addr"`
@@ -213,6 +214,11 @@ func writeContent(c *ContentSpec, dir string) error {
 		f := filepath.Join(dir, filepath.FromSlash(p))
 		os.MkdirAll(filepath.Dir(f), 0o755)
 		if err := mkfifo(f); err != nil {
+			return err
+		}
+	}
+	for p, m := range c.Modes {
+		if err := os.Chmod(filepath.Join(dir, filepath.FromSlash(p)), os.FileMode(m)); err != nil {
 			return err
 		}
 	}
